@@ -54,6 +54,17 @@ func c07FaultScens(tier string) []e1Scen {
 			}
 		}
 	}
+	// ... and after a Write that failed in the middle of a part rotation (Low-Latency: the open part could not be written
+	// to storage), at several part indices, RAM and Directory storage
+	for _, disk := range []bool{false, true} {
+		for _, tracks := range [][]string{{"h264"}, {"h264", "aac44"}} {
+			cfg := mcfg("ll", disk, 7, tracks...)
+			word := []sym{{T: 0, D: "q", K: "R"}, {T: 0, D: "q", K: "n"}, {T: 0, D: "q", K: "n"}, {T: 0, D: "q", K: "n"}}
+			for _, fa := range []int{1, 2, 5, 9, 14} {
+				out = append(out, e1Scen{Prop: "C07", Cfg: cfg, Alpha: word, Mode: "partfault", Len: fa + 3, FaultAt: fa, Name: fmt.Sprintf("close-after-part-fault-%d", fa)})
+			}
+		}
+	}
 	return out
 }
 
@@ -64,6 +75,13 @@ func c07CloseAfterFault(r *e1run) {
 	add := func(sig, format string, a ...any) {
 		r.add("C07", sig, format+"; ops %s", append(a, r.opsString())...)
 	}
+	if !m.mutex.TryLock() {
+		// nobody is inside the muxer (the failed Write has returned): any request and Close itself would block forever
+		r.closed = true
+		add("lock-leak", "the muxer mutex is held after the failed Write returned: requests and Close would block forever")
+		return
+	}
+	m.mutex.Unlock()
 	// a blocking reload far enough ahead to wait (only when the leading stream can serve playlists at all)
 	var pending *respRec
 	pendingDone := false
@@ -83,7 +101,7 @@ func c07CloseAfterFault(r *e1run) {
 	func() {
 		defer func() {
 			if p := recover(); p != nil {
-				add("close-panics", "Close panics after a Write that failed in a segment rotation: %v", p)
+				add("close-panics", "Close panics after a Write that failed in a rotation: %v", p)
 			}
 		}()
 		r.closed = true
